@@ -13,6 +13,9 @@ CLAIMS = {
     "C02": ("dense eigen-decomposition of the assembled K, C, M restricted to used dofs: symmetry, PSD, exact kernel content and dimension against analytically built rigid modes, SPD mass, total mass against analytic / harness-side measures, for every element type incl. 1-4 element patches, beams at generic inclination, heterogeneous densities",
             "n <= 2500 dofs; zero threshold 1e-9*lambda_max; connected meshes",
             "reference-model oracle (dense spectrum + analytic rigid modes) at Get_K_C_M_F"),
+    "C03": ("every Assembly() of real simulations of all seven types and of a harness-defined _Simu subclass with random element data (dof_n 1-6, complex, None slots, boundary and empty groups, Lagrange conditions, mesh replacement, cached-map reuse) is compared with a dense explicit-loop scatter-add of the dictionary captured during that very call; renumbered meshes give the permuted system and solution",
+            "dense reference, Ndof <= 1500; tolerance 1e-11",
+            "reference-model monitor installed on _Simu.Assembly (captures Construct_local_matrix_system output) + operation histories"),
 }
 
 
